@@ -584,6 +584,66 @@ def check_chains(case, ctx):
     return Info(len(steps) >= 3, tuple(lab))
 
 
+# ------------------------------------------------------------------ products of the PSRFITS reader
+
+def strat_pfits(tier):
+    from props.c18_psrfits import strat_spec
+
+    return strat_spec()
+
+
+def check_pfits(spec, ctx):
+    """The same header rules for containers handed out by the PSRFITS reader (sub-range reads and reductions)."""
+    import warnings
+
+    from props.c18_psrfits import LEAP_DAYS
+    from sigpyproc.readers import PFITSReader
+    from vlib import psrfits
+
+    d = ctx.fresh_dir()
+    p = os.path.join(d, "t.sf")
+    psrfits.write_psrfits(p, spec)
+    ctxt = {k: spec.get(k) for k in ("nsub", "nsblk", "npol", "pol_type", "nchan", "nbits", "df", "nstot", "seed")}
+    with warnings.catch_warnings():
+        warnings.simplefilter("ignore")
+        try:
+            rd = PFITSReader(p)
+            rd.read_block(0, rd.header.nsamples)
+        except Exception as exc:  # noqa: BLE001  not readable in full: outside the domain (as in C18)
+            return Info(False, (f"excluded:{type(exc).__name__}",))
+        hdr = rd.header
+        N, nchan = hdr.nsamples, hdr.nchans
+        tol_s = (1.0 if spec["imjd"] in LEAP_DAYS else 0.0) + 5e-6
+
+        def tstart_ok(name, h, start):
+            want = hdr.tstart + start * hdr.tsamp / 86400.0
+            if abs((h.tstart - want) * 86400.0) > tol_s:
+                raise Violation(f"pfits:{name}:tstart", f"{ctxt}: start={start}: tstart {h.tstart!r}, file start advanced by {start} samples is {want!r} "
+                                f"(off by {(h.tstart - want) * 86400.0:.6g} s)")
+
+        nblk = spec["nsblk"]
+        starts = sorted({0, 1, nblk - 1, nblk, nblk + 1, 2 * nblk, N - 1, (spec["chan"] * 7) % N} & set(range(N)))
+        for start in starts:
+            for ns in sorted({1, min(3, N - start), N - start}):
+                try:
+                    b = rd.read_block(start, ns)
+                except Exception as exc:  # noqa: BLE001
+                    raise Violation(f"pfits:read_block:raised:{type(exc).__name__}", f"{ctxt}: read_block({start},{ns}): {exc!r}") from exc
+                require(b.header.nsamples == ns == b.data.shape[1] and b.header.nchans == nchan == b.data.shape[0], "pfits:read_block:shape",
+                        f"{ctxt}: read_block({start},{ns}): data {b.data.shape}, header ({b.header.nchans},{b.header.nsamples})")
+                require(b.header.tsamp == hdr.tsamp and b.header.fch1 == hdr.fch1 and b.header.foff == hdr.foff, "pfits:read_block:sampling-or-band", f"{ctxt}")
+                tstart_ok("read_block", b.header, start)
+            if N - start >= 2:
+                g = spec["gulps"][0]
+                try:
+                    ts = rd.collapse(gulp=g, start=start, nsamps=N - start, quiet=True, description="v")
+                except Exception as exc:  # noqa: BLE001
+                    raise Violation(f"pfits:collapse:raised:{type(exc).__name__}", f"{ctxt}: start={start} gulp={g}: {exc!r}") from exc
+                require(ts.header.nsamples == ts.data.size == N - start and ts.header.nchans == 1, "pfits:collapse:shape", f"{ctxt}: start={start}")
+                tstart_ok("collapse", ts.header, start)
+    return Info(len(starts) >= 4, (f"npol{spec['npol']}", "nstot_short" if spec["nstot"] is not None else "full_rows"))
+
+
 def subchecks(tier):
     q = {"quick": 500, "thorough": 25000}
     sh = {"quick": 4, "thorough": 8}
@@ -592,5 +652,6 @@ def subchecks(tier):
         SubCheck("dedisp", check_dedisp, strategy=lambda t: strat_dedisp(t), examples=q, shards=sh),
         SubCheck("files", check_files, strategy=lambda t: strat_files(t), examples={"quick": 400, "thorough": 20000}, shards=sh),
         SubCheck("blocks", check_blocks, strategy=lambda t: strat_blocks(t), examples=q, shards=sh),
+        SubCheck("pfits", check_pfits, strategy=strat_pfits, examples={"quick": 40, "thorough": 1500}, shards={"quick": 4, "thorough": 8}),
         SubCheck("chains", check_chains, strategy=lambda t: strat_chains(t), examples=q, shards=sh),
     ]
